@@ -1345,6 +1345,9 @@ func (ls *LState) Replace(idx int, value LValue) {
 				ls.RaiseError("_G must be a table(%v)", value.Type().String())
 			}
 		default:
+			if ls.currentFrame == nil {
+				return // top level: no upvalues
+			}
 			fn := ls.currentFrame.Fn
 			index := GlobalsIndex - idx - 1
 			if index < len(fn.Upvalues) {
@@ -1382,6 +1385,10 @@ func (ls *LState) Get(idx int) LValue {
 		case GlobalsIndex:
 			return ls.G.Global
 		default:
+			if ls.currentFrame == nil {
+				// top level: no function is running, so there are no upvalues
+				return LNil
+			}
 			fn := ls.currentFrame.Fn
 			index := GlobalsIndex - idx - 1
 			if index < len(fn.Upvalues) {
